@@ -23,6 +23,7 @@ type dfCfg struct {
 	Ident  bool   `json:"ident"`
 	Dup    bool   `json:"dup"`
 	Whole  bool   `json:"whole"`
+	Pre    bool   `json:"pre"`
 }
 
 type dfStep struct {
@@ -51,7 +52,7 @@ type dfCase struct {
 }
 
 func dfExpected(c *dfCase, st *dfStep) []byte {
-	if st.Out.Kind == "nothing" {
+	if st.Out.Kind == "nothing" || st.Out.Kind == "untouched" {
 		return nil
 	}
 	var blks []*ABlock
@@ -78,7 +79,14 @@ func runDeferredCase(c *dfCase, dir string) (string, string) {
 	var stream bytes.Buffer
 	opts := []carv2.Option{carv2.StoreIdentityCIDs(c.C.Ident), carv2.AllowDuplicatePuts(c.C.Dup), carv2.UseWholeCIDs(c.C.Whole)}
 	var w *deferred.DeferredCarWriter
+	junk := bytes.Repeat([]byte{0xa5}, 5000) // longer than any output of the model
+	if c.C.Pre {
+		os.WriteFile(path, junk, 0o644)
+	}
 	if c.C.Target == "stream" {
+		if !c.C.V1 {
+			opts = append(opts, carv2.WriteAsCarV1(false)) // said explicitly: must win over the constructor's default
+		}
 		w = deferred.NewDeferredCarWriterForStream(&plainWriter{&stream}, idsToCids(c.Roots), opts...)
 	} else {
 		if c.C.V1 {
@@ -120,6 +128,9 @@ func runDeferredCase(c *dfCase, dir string) (string, string) {
 				res = "closed"
 			case err != nil:
 				res = "err:" + err.Error()
+				if inList(st.Res, "err") {
+					res = "err"
+				}
 			}
 		case "close":
 			err := w.Close()
@@ -149,6 +160,12 @@ func runDeferredCase(c *dfCase, dir string) (string, string) {
 			}
 			continue
 		}
+		if st.Out.Kind == "untouched" {
+			if !exists || !bytes.Equal(got, junk) {
+				return "not-lazy", fmt.Sprintf("step %d %s: the file that was at the path has been touched before any Put", i, st.Op.Op)
+			}
+			continue
+		}
 		if !exists {
 			return "output-missing", fmt.Sprintf("step %d %s: no output although a Put happened", i, st.Op.Op)
 		}
@@ -156,9 +173,17 @@ func runDeferredCase(c *dfCase, dir string) (string, string) {
 			return "output-bytes", fmt.Sprintf("step %d %s: output has %d bytes, a direct writer's image has %d (kind %s, secs %v)", i, st.Op.Op, len(got), len(want), st.Out.Kind, st.Out.Secs)
 		}
 	}
+	if c.C.Target == "stream" && !c.C.V1 {
+		// the model's Refuses: a direct writer with these options must not be constructible either
+		var sink bytes.Buffer
+		dopts := append([]carv2.Option{carv2.WriteAsCarV1(true)}, opts...)
+		if _, err := storage.NewWritable(&plainWriter{&sink}, idsToCids(c.Roots), dopts...); err == nil {
+			return "direct-writer", "a direct writer accepts a plain stream with WriteAsCarV1(false): the specification's Refuses does not describe it"
+		}
+	}
 	// direct writer with the same puts
 	last := c.Hist[len(c.Hist)-1]
-	if last.Out.Kind != "nothing" {
+	if last.Out.Kind != "nothing" && last.Out.Kind != "untouched" {
 		var buf bytes.Buffer
 		dpath := filepath.Join(dir, "direct.car")
 		os.Remove(dpath)
